@@ -2,12 +2,7 @@
 # usage: harmlessrerun.sh <name> ["note"] — re-runs the quick check with the stored harmless change applied
 set -u
 N=$1; NOTE=${2:-}; P=${N%%_*}
-if [ -n "$(git -C /repo status --porcelain)" ]; then echo "harmlessrerun: /repo has uncommitted changes" >&2; exit 3; fi
-git -C /repo apply /verif/harmless/$N/patch.diff || { echo "$N patch does not apply"; exit 2; }
-cp /verif/evidence/$P.json /tmp/evidence_$P.keep 2>/dev/null
-/verif/check $P quick > /verif/harmless/$N/check_with_change_rerun.log 2>&1; rc=$?
-git -C /repo checkout -- .
-[ -f /tmp/evidence_$P.keep ] && mv /tmp/evidence_$P.keep /verif/evidence/$P.json
+/verif/tools/scratchcheck.sh $P /verif/harmless/$N/patch.diff /verif/harmless/$N/check_with_change_rerun.log; rc=$?
 python3 - "$N" "$NOTE" "$rc" <<'P'
 import json,sys
 n,note,rc=sys.argv[1],sys.argv[2],int(sys.argv[3])
